@@ -4,6 +4,8 @@ package gen
 
 import (
 	"fmt"
+	aptypes "github.com/elys-network/elys/x/assetprofile/types"
+	oracletypes "github.com/elys-network/elys/x/oracle/types"
 	"math/rand"
 	"sort"
 
@@ -185,6 +187,25 @@ func (g *Gen) Op(name string, ac *chain.Actor, ctx sdk.Context) sdk.Msg {
 			return &ammtypes.MsgSwapByDenom{Sender: me, Amount: chain.CoinI(p[0], g.Amt(1e3, 1e10)), MinAmount: chain.Coin(p[1], 1), MaxAmount: chain.Coin(p[0], 0), DenomIn: p[0], DenomOut: p[1]}
 		}
 		return &ammtypes.MsgSwapByDenom{Sender: me, Amount: chain.CoinI(p[1], g.Amt(1e3, 1e9)), MinAmount: chain.Coin(p[1], 0), MaxAmount: chain.Coin(p[0], 1e13), DenomIn: p[0], DenomOut: p[1]}
+	case "hostileRegistry":
+		// permissionless registry messages of this tree: price infos for denoms that have none and
+		// asset-profile entries that shadow existing ones (base denom sorting first, same denom)
+		n := r.Intn(1 << 20)
+		if r.Intn(2) == 0 {
+			dn := []string{"amm/pool/1", "amm/pool/2", "amm/pool/3", "stablestake/share", "ueden", "uedenb", fmt.Sprintf("coin%d", n)}[r.Intn(7)]
+			tk := []string{"ATOM", "USDC", "ELYS", "NOPE"}[r.Intn(4)]
+			return &oracletypes.MsgCreateAssetInfo{Creator: me, Denom: dn, Display: tk, BandTicker: tk, ElysTicker: tk, Decimal: uint64(6 + r.Intn(13))}
+		}
+		dn := []string{"uusdc", "uatom", "uelys", "amm/pool/1", "amm/pool/2", "stablestake/share", "ueden", fmt.Sprintf("coin%d", n)}[r.Intn(8)]
+		return &aptypes.MsgAddEntry{Creator: me, BaseDenom: fmt.Sprintf("%s%d", []string{"aa", "zz", "u"}[r.Intn(3)], n), Denom: dn, Decimals: uint64(6 + r.Intn(13)), DisplayName: "X", CommitEnabled: r.Intn(2) == 0, WithdrawEnabled: r.Intn(2) == 0}
+	case "burnSend":
+		// coins sent to the all-zero address: the burner module destroys the native ones at its epoch
+		zero := sdk.AccAddress(make([]byte, 20)).String()
+		cs := sdk.NewCoins(chain.CoinI("uelys", g.Amt(1, 1e8)))
+		if r.Intn(3) == 0 {
+			cs = cs.Add(chain.CoinI([]string{"uusdc", "uatom"}[r.Intn(2)], g.Amt(1, 1e6)))
+		}
+		return &banktypes.MsgSend{FromAddress: me, ToAddress: zero, Amount: cs}
 	case "joinSingle":
 		d := []string{"uusdc", "uatom"}[r.Intn(2)]
 		return &ammtypes.MsgJoinPool{Sender: me, PoolId: 1, MaxAmountsIn: sdk.NewCoins(chain.CoinI(d, g.Amt(1e3, 5e10))), ShareAmountOut: math.NewInt(1)}
